@@ -57,9 +57,12 @@ def run(tier, seed):
         info = dict(n=n, ndim=ndim, integrator=integ, dt=dt, state=tr.state)
         if not (np.all(mudslide.AugmentedFSSH(tr.model, [0.0] * ndim, [1.0] * ndim, 0, dt=1.0).delR == 0)):
             bad.append(dict(failed="moments start at zero", case=info))
-        tr.advance_delR(le, te); dR1 = tr.delR.copy()
-        tr.delR = dR0.copy()
-        tr.advance_delP(le, te); dP1 = tr.delP.copy()
+        try:
+            tr.advance_delR(le, te); dR1 = tr.delR.copy()
+            tr.delR = dR0.copy()
+            tr.advance_delP(le, te); dP1 = tr.delP.copy()
+        except Exception as ex:
+            bad.append(dict(failed="moment propagation raised %s: %s" % (type(ex).__name__, ex), case=info)); continue
         f0 = tr._force(te)
         sc = max(1e-300, np.max(np.abs(dR1)), np.max(np.abs(dP1)))
         if herm_defect(dR1) > 1e-10 * sc or herm_defect(dP1) > 1e-10 * sc:
@@ -109,8 +112,28 @@ def run(tier, seed):
     for k, backend in enumerate(["memory", "yaml"] * (1 if tier == "quick" else 4)):
         mname = ["simple", "dual", "extended"][k % 3]
         tracer = InMemoryTrace() if backend == "memory" else YAMLTrace(base_name="ta", location=tmproot, log_pitch=8)
-        tr = mudslide.AugmentedFSSH(M[mname](), [-3.0], [12.0], 0, dt=10.0, max_steps=80, tracer=tracer, zeta_list=[2.0] * 100, seed_sequence=rng.randrange(2 ** 31))
+        # thresholds: no hops except at the two forced-collapse steps, where a hop is attempted in the same step
+        zl = [2.0] * 100; zl[20] = 1e-12; zl[50] = 1e-12
+        integ = ["exp", "rk4"][k % 2]
+        tr = mudslide.AugmentedFSSH(M[mname](), [-3.0], [12.0], 0, dt=10.0, max_steps=80, tracer=tracer, zeta_list=zl, seed_sequence=rng.randrange(2 ** 31),
+                                    augmented_integration=integ)
         state = {"collapsed": 0}
+        # every moment propagation must depend only on the values of its inputs (no hidden shared state):
+        # replay each call on a shallow twin holding private copies and compare
+        import copy as _cp
+        def purity_wrap(name, tr=tr):
+            orig = getattr(tr, name)
+            cls_fn = getattr(mudslide.AugmentedFSSH, name)
+            def wrapped(le, te):
+                twin = _cp.copy(tr); twin.delR = tr.delR.copy(); twin.delP = tr.delP.copy(); twin.rho = tr.rho.copy()
+                twin.velocity = tr.velocity.copy(); twin.last_velocity = tr.last_velocity.copy()
+                orig(le, te)
+                cls_fn(twin, le, te)
+                if not (np.allclose(twin.delR, tr.delR, rtol=1e-10, atol=1e-14) and np.allclose(twin.delP, tr.delP, rtol=1e-10, atol=1e-14)):
+                    bad.append(dict(failed="moment propagation after a collapse/hop depends only on the current moments, density matrix and electronics (%s on the live object differs from the same call on private copies)" % name,
+                                    case=dict(model=mname, step=tr.nsteps, backend=backend, integrator=integ)))
+            setattr(tr, name, wrapped)
+        purity_wrap("advance_delR"); purity_wrap("advance_delP")
         orig_gamma = tr.gamma_collapse
         tr.gamma_collapse = lambda el, og=orig_gamma: np.abs(og(el)) + (1.0 if tr.nsteps in (20, 50) else 0.0) * (np.arange(2) != tr.state)
         orig_sh = tr.surface_hopping
